@@ -73,7 +73,7 @@ def main():
         'paths': int(opts.stats.get('num_paths', 0)),
         'stats': {k: int(v) for k, v in opts.stats.items()},
         'reach': hx.COUNT['reach'], 'rejected': hx.COUNT['rejected'], 'failed': hx.COUNT['failed'],
-        'runs': hx.COUNT['runs'],
+        'runs': hx.COUNT['runs'], 'max_ticks': hx.COUNT['max_ticks'],
         'solver_queries': solver['n'], 'solver_time_s': round(solver['t'], 3),
         'functions': sorted(loader.Fuel.functions),
         'model_stats': dict(models.STATS), 'rewrites': dict(loader.REWRITES),
